@@ -101,8 +101,8 @@ def symdel(seqs: OneOf(Seq(Str, "list"), Seq(Str, "ndarray"), SeriesT(Str, "int"
         and is_neighbor(seqs[i], seqs[j], custom_distance, max_edits, max_custom_distance),
         member(triplets_of(result), (i, j, neighbor_value(seqs[i], seqs[j], custom_distance)),
                common_variant(seqs[i], seqs[j], custom_distance, max_edits),
-               vd_pos(local("symdeldb"), common_variant(seqs[i], seqs[j], custom_distance, max_edits), i if i < j else j),
-               vd_pos(local("symdeldb"), common_variant(seqs[i], seqs[j], custom_distance, max_edits), j if i < j else i))))
+               vd_pos(created("SymdelDB"), common_variant(seqs[i], seqs[j], custom_distance, max_edits), i if i < j else j),
+               vd_pos(created("SymdelDB"), common_variant(seqs[i], seqs[j], custom_distance, max_edits), j if i < j else i))))
             if seqs2 is None else True, name="post[self: complete]")
     ensures(is_setlike(triplets_of(result)) and functional_on(triplets_of(result), lambda t: (t[0], t[1]))
             if seqs2 is None else True, name="post[self: each pair once]")
@@ -305,11 +305,11 @@ def nearest_neighbor_tcrdist(df: TableT(["CDR3A", "TRAV", "CDR3B", "TRBV"], min_
                              edit_on_trimmed: OneOf(Const(True), Const(False)), max_tcrdist: RealT(lo=0)):
     # (the CDR3 column holds strings; nearest_neighbor's contract applies to the list made from it)
     raises(None)
-    ensures(is_empty_result(result) == bag_is_empty(local("neighbors")), name="post[empty result exactly when no candidate pair]")
+    ensures(is_empty_result(result) == bag_is_empty(call_result("pyrepseq.nn.nearest_neighbor")), name="post[empty result exactly when no candidate pair]")
     # non-empty case, term level (the TCRdist functions are opaque library operations): the rows (q, r, TCRdist) of the candidate
     # pairs whose TCRdist -- V-gene table distance plus CDR3 distance, summed over the requested chains -- is at most max_tcrdist
     ensures(implies(not is_empty_result(result),
-                    same_value(result, tcr_rows(np.array(local("neighbors")), tcrdist_of(df, chain, np.array(local("neighbors"))[:, :2]),
+                    same_value(result, tcr_rows(np.array(call_result("pyrepseq.nn.nearest_neighbor")), tcrdist_of(df, chain, np.array(call_result("pyrepseq.nn.nearest_neighbor"))[:, :2]),
                                                 max_tcrdist))),
             name="post[rows within max_tcrdist, valued by the summed TCRdist]")
 
